@@ -486,6 +486,7 @@ type mapIter struct {
 }
 
 func (it *mapIter) next(m *Machine) tuple {
+	m.mapRead(it.mp)
 	for it.i < len(it.ents) {
 		e := it.ents[it.i]
 		it.i++
